@@ -13,7 +13,7 @@ ID = "C19"
 LEVEL = "exploration"
 DECIDING = ["C19.construct", "C19.getter"]
 RULE = ("exhaustive box: n_b, n_o in 1..5, n_t in {1,2} (quick) / {1,2,3} (thorough), both position modes, bare numbers and fulldiv_N names (quick) plus explicit "
-        "algorithm names per role and two factors (thorough); for each specification the constructor and the five getters (array, volumes, "
+        "algorithm names per role and two factors (thorough), number-less zero names, radii differing in the 8th decimal, and ordered histories of specifications inside one process (a deeper polytope grid before a shallower one, fulldiv after cube4D); for each specification the constructor and the five getters (array, volumes, "
         "adjacency, borders, distances) are called, every getter even if an earlier one failed. Non-trivial = specification with n>=2 cells; "
         "distinct by (b, o, t, mode)")
 ASSUMPTIONS = ["allowed outcomes: correct shape (n x 7, n, n x n) or ValueError; in Cartesian mode with fewer than three directions the geometry "
@@ -127,6 +127,13 @@ def specs(tier):
     for nb in (1, 2, 5, 8, 9, 40):
         for cart in (False, True):
             out.append((f"fulldiv_{nb}", "4", ts[1], cart, 2))
+    # the spellings of the single-point grids that carry no number, and radial grids whose radii differ only in the 8th decimal
+    for cart in (False, True):
+        for b, o in (("zero", "4"), ("zero4D", "5"), ("4", "zero"), ("5", "zero3D"), ("zero", "zero"), ("zero4D", "zero3D")):
+            out.append((b, o, ts[1], cart, 2))
+        for t in ("[0.3, 0.30000004]", "linspace(0.3, 0.30000006, 3)"):
+            out.append(("1", "4", t, cart, 2))
+            out.append(("4", "5", t, cart, 2))
     if tier == "thorough":
         for t in ts:
             for cart in (False, True):
@@ -134,13 +141,27 @@ def specs(tier):
     return out
 
 
+def histories():
+    """ordered sequences run inside ONE process: a specification must work whatever was built before it"""
+    t = "[0.1, 0.25]"
+    return [[("cube4D_9", "4", t, False, 2), ("fulldiv_8", "4", t, False, 2), ("cube4D_41", "4", t, False, 2), ("fulldiv_40", "1", t, False, 2),
+             ("fulldiv_8", "5", t, True, 2)],
+            [("4", "ico_13", t, False, 2), ("4", "ico_12", t, True, 2), ("4", "cube3D_27", t, False, 2), ("4", "cube3D_8", t, False, 2),
+             ("5", "ico_4", t, False, 2)],
+            [("fulldiv_40", "1", t, False, 2), ("fulldiv_8", "4", t, False, 2), ("randomQ_9", "randomS_9", t, True, 2), ("randomQ_4", "randomS_4", t, False, 2)]]
+
+
 def shards(tier, seed):
     nsh = 8 if tier == "quick" else 16
-    return [{"nshards": nsh, "shard": i} for i in range(nsh)]
+    return [{"nshards": nsh, "shard": i} for i in range(nsh)] + [{"history": k} for k in range(len(histories()))]
 
 
 def run_shard(spec):
     FullGrid = install()
+    if "history" in spec:
+        for (b, o, t, cart, f) in histories()[spec["history"]]:
+            drive(FullGrid, b, o, t, cart, f)
+        return
     for k, (b, o, t, cart, f) in enumerate(specs(spec["tier"])):
         if k % spec["nshards"] == spec["shard"]:
             drive(FullGrid, b, o, t, cart, f)
